@@ -80,6 +80,10 @@ def check(kind, spectrum, L, freq, dirs, out, requested, wind=None, celerity_lib
             lo, hi = frac_bounds(part, mask, amb)
             if np.isnan(lo):
                 swell_src.append((k, np.where(b, Sc, 0)))      # empty basin: nan > wscut is False
+            elif hi == 0.0 and wscut >= 0:
+                # no energy inside the wind-sea region (not even in the ambiguous bins): the fraction is exactly zero in
+                # any arithmetic, and zero does not exceed any cutoff >= 0
+                swell_src.append((k, np.where(b, Sc, 0)))
             elif lo > wscut + fr_tol and hi > wscut + fr_tol:
                 sea_basins.append(k)
             elif hi < wscut - fr_tol and lo < wscut - fr_tol:
